@@ -126,6 +126,7 @@ func c18PRFromObj(pr *pkgv1.ProviderRevision) c18PR {
 	p := c18PR{Name: pr.Name, UID: string(pr.UID), Paused: meta.IsPaused(pr), Deleted: pr.DeletionTimestamp != nil,
 		Family: pr.Labels[pkgv1.LabelProviderFamily], Pkg: pr.Spec.Package, Refs: []c18Ref{}, Requests: c18FromK8sRules(pr.Status.PermissionRequests)}
 	p.Org = c18ParseOrg(p.Pkg)
+	p.Inactive = pr.Spec.DesiredState == pkgv1.PackageRevisionInactive
 	for _, r := range pr.Status.ObjectRefs {
 		p.Refs = append(p.Refs, c18Ref{APIVersion: r.APIVersion, Kind: r.Kind, Name: r.Name})
 	}
@@ -251,6 +252,10 @@ func c18PRObj(p c18PR) *pkgv1.ProviderRevision {
 	pr := &pkgv1.ProviderRevision{}
 	pr.Name, pr.UID = p.Name, types.UID(p.UID)
 	pr.Spec.Package = p.Pkg
+	pr.Spec.DesiredState = pkgv1.PackageRevisionActive
+	if p.Inactive {
+		pr.Spec.DesiredState = pkgv1.PackageRevisionInactive
+	}
 	if p.Family != "" {
 		pr.Labels = map[string]string{pkgv1.LabelProviderFamily: p.Family}
 	}
